@@ -209,9 +209,9 @@ Definition establish_share_slices (group : N) (data : bytes) : res bytes :=
 (* ---------- lock discipline of a post-handshake HelloRequest (conn.go Read, u_conn.go:959-1006, u_conn.go:361-371) ----------
    One goroutine; sync.Mutex is not reentrant: acquiring a mutex it already holds blocks it forever (no I/O pending, so neither a
    deadline nor Close wakes it); unlocking a mutex it does not hold is a fatal error. *)
-Inductive lk := L_in | L_hs.                      (* c.in (halfConn mutex), c.handshakeMutex *)
+Inductive lk := L_in | L_hs | L_out.              (* c.in, c.handshakeMutex, c.out (halfConn mutexes are sync.Mutex too) *)
 Inductive lop := Acq (l : lk) | Rel (l : lk).
-Definition lk_eqb (a b : lk) : bool := match a, b with L_in, L_in | L_hs, L_hs => true | _, _ => false end.
+Definition lk_eqb (a b : lk) : bool := match a, b with L_in, L_in | L_hs, L_hs | L_out, L_out => true | _, _ => false end.
 Definition E_SELF_DEADLOCK : N := 210.
 Definition P_UNLOCK : N := 4.
 Fixpoint lock_run (held : list lk) (ops : list lop) : res (list lk) :=
@@ -228,3 +228,20 @@ Definition ops_handle_renegotiation : list lop := [Acq L_hs; Rel L_hs].
    on TLS <= 1.2 when the client's policy allows it); deferred c.in.Unlock() *)
 Definition ops_read (renegotiations : nat) : list lop :=
   [Acq L_in] ++ concat (repeat ops_handle_renegotiation renegotiations) ++ [Rel L_in].
+
+(* Conn.sendAlert (conn.go): c.out.Lock(); defer c.out.Unlock(); sendAlertLocked *)
+Definition ops_send_alert : list lop := [Acq L_out; Rel L_out].
+(* Conn.handleKeyUpdate with update_requested (conn.go:1345-1375): c.out.Lock(); defer c.out.Unlock(); the reply is written with
+   writeRecordLocked; when that write FAILS the error is only recorded (c.out.setErrorLocked(err); return nil) - no alert is sent while
+   c.out is held; when it succeeds the write secret is rolled.  Either way the lock operations are the same. *)
+Definition ops_key_update_reply (write_fails : bool) : list lop := [Acq L_out; Rel L_out].
+(* an unexpected post-handshake message: c.sendAlert(alertUnexpectedMessage) under c.in only *)
+Inductive post_event := EvHelloRequest | EvKeyUpdate (write_fails : bool) | EvUnexpected.
+Definition ops_post_event (e : post_event) : list lop :=
+  match e with
+  | EvHelloRequest => ops_handle_renegotiation
+  | EvKeyUpdate wf => ops_key_update_reply wf
+  | EvUnexpected => ops_send_alert
+  end.
+Definition ops_read_events (evs : list post_event) : list lop :=
+  [Acq L_in] ++ flat_map ops_post_event evs ++ [Rel L_in].
